@@ -170,4 +170,3 @@ func coerceLit(lit, other *Term) *Term {
 	}
 	return lit
 }
-
